@@ -717,3 +717,115 @@ contract(CP + "_print_Abs", params={"self": "any", "expr": "any"}, ret="PyStr",
 for _q, _c in CONTRACTS.items():
     if _q.startswith(CP):
         _c.bounded = True
+
+
+# ----------------------------------------------------------------------------------------------- .ode writer glue (C11), instances
+# The fragment a writer function prints is put into a minimal model text and read back by the REAL loader (sub-process of the
+# repository's interpreter): name, value, unit, description, comment and component membership must come back as they went in.
+WG = "gotranx.codegen.ode."
+_RELOAD_CACHE: dict = {}
+
+
+def _reload(text):
+    key = (text,)
+    if key in _RELOAD_CACHE:
+        return _RELOAD_CACHE[key]
+    prog = ("import json, sys, logging, structlog\n"
+            "structlog.configure(wrapper_class=structlog.make_filtering_bound_logger(logging.ERROR))\n"
+            "import gotranx\n"
+            "try:\n"
+            f"    ode = gotranx.load.ode_from_string({text!r})\n"
+            "except Exception as e:\n"
+            "    print(json.dumps({'error': type(e).__name__ + ': ' + str(e)[:200]})); sys.exit(0)\n"
+            "out = {}\n"
+            "for a in list(ode.states) + list(ode.parameters) + list(ode.intermediates) + list(ode.state_derivatives):\n"
+            "    try:\n"
+            "        fv = float(a.value)\n"
+            "    except Exception:\n"
+            "        fv = None\n"
+            "    out[a.name] = {'value': str(getattr(a, 'expr', None) if hasattr(a, 'expr') else a.value), 'pvalue': fv, 'unit_str': a.unit_str, 'description': a.description,\n"
+            "                   'components': list(a.components), 'comment': (a.comment.text if getattr(a, 'comment', None) is not None else None)}\n"
+            "print(json.dumps(out))\n")
+    from pyvc import extract
+    env = dict(os.environ, PYTHONDONTWRITEBYTECODE="1")
+    if extract.REPO != "/repo":
+        env["PYTHONPATH"] = f"{extract.REPO}/src"
+    p = subprocess.run(["/venv/bin/python", "-c", prog], capture_output=True, text=True, timeout=300, env=env)
+    try:
+        r = json.loads(p.stdout.strip().splitlines()[-1])
+    except Exception:  # noqa: BLE001
+        r = {"error": "no answer: " + p.stderr[-300:]}
+    _RELOAD_CACHE[key] = r
+    return r
+
+
+core.RECORDS.setdefault("AtomHole", {"name": "Py", "value": "Py", "unit_str": "Py", "description": "Py", "expr": "Py", "comment": "Py"})
+
+
+def atom_hole(name, value="1.5", unit_str=None, description=None, expr="x*2 + 1", comment=None):
+    return Record("AtomHole", {"name": name, "value": value, "unit_str": unit_str, "description": description, "expr": expr,
+                               "comment": None if comment is None else Record("Comment", {"text": comment})})
+
+
+def _doprint_hole(ctx, st, x):
+    return x if isinstance(x, str) else repr(x)
+
+
+@registry.spec("scalarparam_reloads")
+def _scalarparam_reloads(ctx, st, text, p):
+    f = p.fields
+    r = _reload(f"states({text})\nd{f['name']}_dt = 1\n")
+    a = r.get(f["name"])
+    return bool(a) and a["pvalue"] is not None and float(a["pvalue"]) == float(f["value"]) and a["unit_str"] == f["unit_str"] and (a["description"] or None) == (f["description"] or None)
+
+
+@registry.spec("assignment_reloads")
+def _assignment_reloads(ctx, st, text, a):
+    f = a.fields
+    r = _reload(f"states(x=1.0)\n{text}\ndx_dt = {f['name']}\n")
+    got = r.get(f["name"])
+    if not got:
+        return False
+    want_unit = f["unit_str"]
+    want_comment = f["comment"].fields["text"] if (f["comment"] is not None and want_unit is None) else None
+    return got["value"].replace(" ", "") == f["expr"].replace(" ", "") and got["unit_str"] == want_unit and got["comment"] == want_comment
+
+
+@registry.spec("block_reloads")
+def _block_reloads(ctx, st, text, case, names, is_expression):
+    comps = [n for n in names if n != ""] or [""]
+    args = ", ".join(f'"{n}"' for n in names if n != "")
+    if is_expression:
+        r = _reload(f"states({args + ', ' if args else ''}x=1.0)\n{text}\nw = 2*x\ndx_dt = w\n")
+        got = r.get("w")
+    elif case == "states":
+        r = _reload(f"{text}\nzz=2.5)\n" + (f"expressions({args})\n" if args else "") + "dzz_dt = 1\n")
+        got = r.get("zz")
+    else:
+        r = _reload(f"states(x=1.0)\n{text}\nzz=2.5)\ndx_dt = zz\n")
+        got = r.get("zz")
+    return bool(got) and got["components"] == comps
+
+
+_SP = [atom_hole("V", "-85.0"), atom_hole("m", "0.25", unit_str="mV"), atom_hole("h", "1e-3", description="a gate"),
+       atom_hole("n_gate", "2.0", unit_str="uA/cm**2", description="rate k (1/ms)"), atom_hole("q", "3.0", unit_str="1", description="")]
+contract(WG + "print_ScalarParam", params={"p": "any", "doprint": "any"}, ret="PyStr",
+         enum_params={"p": _SP, "doprint": [_doprint_hole]},
+         ensures={"reads_back_with_the_same_value_unit_and_description": "scalarparam_reloads(result, p)"},
+         properties=("C11",), note="BOUNDED instances: no annotation, unit only, description only, both, unit '1' with an empty description")
+_AS = [atom_hole("w", expr="x*2 + 1"), atom_hole("w", expr="x*2 + 1", unit_str="mV"), atom_hole("w", expr="x*2 + 1", comment="rate of x"),
+       atom_hole("w", expr="x*2 + 1", unit_str="ms**-1", comment="ms**-1"), atom_hole("w", expr="x*2 + 1", unit_str="mV", comment="rate of x")]
+contract(WG + "print_assignment", params={"a": "any", "doprint": "any"}, ret="PyStr",
+         enum_params={"a": _AS, "doprint": [_doprint_hole]},
+         ensures={"reads_back_with_the_same_expression_and_unit_or_comment": "assignment_reloads(result, a)"},
+         properties=("C11",),
+         note="BOUNDED instances: plain, unit, free-text comment, unit given twice, unit and a different comment (the unit is what is kept); the dimensionless unit '1' is not among them (listed finding: it is dropped)")
+_BL = [((), False), (("",), False), (("A",), False), (("A", "I Na"), False), ((), True), (("",), True), (("A",), True), (("A", "I Na"), True)]
+contract(WG + "start_odeblock", params={"case": "PyStr", "CASE": "any"}, ret="PyStr",
+         enum_params={"case": ["states", "parameters", "expressions"], "CASE": _BL},
+         where={"names": "CASE[0]", "is_expression": "CASE[1]"},
+         ensures={"opens_a_block_whose_entries_belong_to_these_components":
+                  "implies((case == 'expressions') == CASE[1], block_reloads(result, case, CASE[0], CASE[1]))"},
+         properties=("C11",), note="BOUNDED instances: default component, one and two named components; declaration and expression blocks")
+for _q in (WG + "print_ScalarParam", WG + "print_assignment", WG + "start_odeblock"):
+    CONTRACTS[_q].bounded = True
